@@ -272,7 +272,13 @@ def build():
     if ZL in ds.body and 'let saved_ctl' in ds.body:
         A1, A2, A3 = r'(self\.recompose_coeff_ctl_for_decompose_links = false;)', r'(let t_coeffs = )', r'(let s_coeffs = )'
         if all(re.search(a_, ds.body) for a_ in (A1, A2, A3)):
-            ds.rewrite_re('SPEC', A1, r'let ghost tco = t_coeffs_opt; let ghost sco = s_coeffs_opt; \1 let ghost b_c = *self;')
+            # the snapshot b_c is the state the first recursive call starts from: after the select record of x was taken out, where the code does that (F35)
+            RM_ = r'(self\.ext_select_sources\.remove\(&x\);)'
+            if re.search(RM_, ds.body):
+                ds.rewrite_re('SPEC', A1, r'let ghost tco = t_coeffs_opt; let ghost sco = s_coeffs_opt; \1')
+                ds.rewrite_re('SPEC', RM_, r'\1 let ghost b_c = *self;')
+            else:
+                ds.rewrite_re('SPEC', A1, r'let ghost tco = t_coeffs_opt; let ghost sco = s_coeffs_opt; \1 let ghost b_c = *self;')
             ds.rewrite_re('SPEC', A3, r'let ghost b_t = *self; \1')
             CHAIN = '''
             // old -> b_c (flag cleared: same values, constraints, taint) -> b_t (true branch decomposed or cached) -> b_s (false branch) -> self (flag restored)
@@ -293,7 +299,11 @@ def build():
             assert(self.vals_of(scs) =~= b_s.vals_of(scs));
             assert(self.has_all(tcs)) by { assert forall|k: int| 0 <= k < tcs.len() implies self.has(#[trigger] tcs[k]) by { assert(b_t.has(tcs[k])); } }
 '''
-            ds.rewrite_re('SPEC', r'(self\.recompose_coeff_ctl_for_decompose_links = saved_ctl;)', r'let ghost b_s = *self; \1')
+            IN_ = r'(self\.ext_select_sources\.insert\(x, \(b, t, s\)\);)'
+            if re.search(IN_, ds.body):
+                ds.rewrite_re('SPEC', IN_, r'let ghost b_s = *self; \1')   # the state the second recursive call returns (before the record is put back)
+            else:
+                ds.rewrite_re('SPEC', r'(self\.recompose_coeff_ctl_for_decompose_links = saved_ctl;)', r'let ghost b_s = *self; \1')
         else:
             CHAIN = ''
         ds.before('let n_fz_ =', '''let ghost b_l = *self; let ghost tcs = t_coeffs@; let ghost scs = s_coeffs@; let ghost vb = old(self).val(b);
